@@ -86,11 +86,10 @@ def _parse_string(s):
     but takes account of possible exponents.
     """
     s = s.strip().lower().translate(s.maketrans("d", "e"))
-    if s[-1] == "j":
+    imaginary = s[-1] == "j"
+    if imaginary:
         s = s[:-1]
-        factor = 1j
-    else:
-        factor = 1
+    factor = 1
     if s[0] == "+":
         s = s[1:]
     elif s[0] == "-":
@@ -101,7 +100,7 @@ def _parse_string(s):
     test = float(s) * factor
 
     s_float, exp, s_exp = s.partition("e")
-    s_count, sep, s_frac = s_float.rpartition(".")
+    s_count, sep, s_frac = s_float.partition(".")
     if exp:
         exponent = int(s_exp)
         if exponent < 0:
@@ -119,11 +118,13 @@ def _parse_string(s):
     frac = float("0." + s_frac) * factor
     count = float("0" + s_count) * factor
 
-    assert count + frac == test
-    return count, frac
+    # The parts are rounded separately, so their sum can differ from the
+    # directly parsed value in the last bits.
+    assert abs(count + frac - test) <= 4 * np.finfo(float).eps * abs(test)
+    return count, frac, imaginary
 
 
-_parse_strings = np.vectorize(_parse_string, otypes=[complex, complex])
+_parse_strings = np.vectorize(_parse_string, otypes=[float, float, bool])
 
 
 class FractionalPhase(Longitude):
@@ -511,7 +512,11 @@ class Phase(Angle):
         string = np.asanyarray(string)
         if string.dtype.kind not in "SU":
             raise ValueError("require string input.")
-        count, frac = _parse_strings(string)
+        count, frac, imaginary = _parse_strings(string)
+        if np.all(imaginary):
+            count, frac = count * 1j, frac * 1j
+        elif np.any(imaginary):
+            raise ValueError("cannot have mixed real/imaginary Phase")
         return cls(count, frac)
 
     @property
